@@ -228,7 +228,19 @@ def check (params lines : List String) : CaseResult := Id.run do
     if outcomeOf c s != outcome then
       r := { r with diffs := s!"at the end: model {showOutcome (outcomeOf c s)} implementation {showOutcome outcome}" :: r.diffs }
   else
+    -- the enforced replays of the Lean witness schedules (stated for winner 0 / loser 1 of two alternatives)
     let todo := competing.map (·.1)
+    if k == 2 && (mode == "wit" || mode == "wit2") && todo == [0, 1] || k == 2 && mode == "wit0" then
+      let sch := if mode == "wit" then deadlockWitness c
+                 else if mode == "wit2" then bothInTransformerSched (c.replyCap != 0)
+                 else lateSelectSched (c.replyCap != 0)
+      let expected := outcomeOf c (quiesce c fuel (exec c (init c) sch))
+      -- wit2 releases both flows into the compare-and-swap together: either may be first
+      let alt := if mode == "wit2" then
+          outcomeOf c (quiesce c fuel (exec c (init c) (sch.dropLast.dropLast ++ [.cas 1, .cas 0])))
+        else expected
+      if expected != outcome && alt != outcome then
+        r := { r with diffs := s!"enforced replay of the Lean witness schedule ({mode}): model {showOutcome expected} implementation {showOutcome outcome}" :: r.diffs }
     let ordered := mode == "nw" || mode == "wit"
     let (found, exhausted, n) := search c outcome ordered 300000 [(s0, todo)] {} 0
     if found then pure ()
